@@ -74,7 +74,7 @@ def _scn(draw):
     elif extra == "dotdot_top":
         # files directly in a history root (the outer one and a nested one) whose names begin with two dots, and a
         # backslash in a name (an ordinary character here)
-        if not ({"..metadata", "dd"} & hist.top_names_used(scn)):
+        if not ({"..metadata", "...", "dd"} & hist.top_names_used(scn)):
             scn["tree"]["..metadata"] = "not a parent reference"
             scn["tree"]["..."] = "three dots"
             scn["tree"]["dd"] = {"..sync state": "in a nested root", "take\\1.bin": "backslash", "x": {"..deeper": "fine anyway"}}
